@@ -218,14 +218,14 @@ def main(tier):
             run.cov['traces_validated_against_impl'] += len(metas)
             if k == 0 and metas:
                 run.sample({'list_txt': info[metas[0][0]][1]['txt'].get('out', '')[:600]})
-            text = ['From Coq Require Import List ZArith String.', 'From NP Require Import IntervalSet ConnSet World Build Connlist Diff Format DiffDot XFormat XFormatMore RowInj.',
+            text = ['From Coq Require Import List ZArith String.', 'From NP Require Import IntervalSet ConnSet World Build Connlist Diff Format DiffDot XFormat XFormatMore RowInj DiffInj.',
                     'Import ListNotations.', 'Open Scope Z_scope.', 'Definition lcases : list fmt_case := [', ';\n'.join(lcases), '].',
                     'Definition dcases : list dfmt_case := [', ';\n'.join(dcases), '].',
                     'Definition xcases : list xfmt_case := [', ';\n'.join(xcases), '].', 'Definition XM := Eval vm_compute in xfmt_mismatches xcases.',
                     'Definition ddcases : list ddot_case := [', ';\n'.join(ddcases), '].', 'Definition DDM := Eval vm_compute in ddot_mismatches ddcases.',
                     'Definition x3cases : list xfmt3_case := [', ';\n'.join(x3cases), '].', 'Definition X3M := Eval vm_compute in xfmt3_mismatches x3cases.',
                     'Definition tcases : list dot_case := [', ';\n'.join(tcases), '].', 'Definition TM := Eval vm_compute in dot_mismatches tcases.',
-                    'Definition MM := Eval vm_compute in fmt_mismatches lcases.', 'Definition DM := Eval vm_compute in dfmt_mismatches dcases.', 'Definition PM := Eval vm_compute in printable_mismatches lcases.', 'Print MM.', 'Print DM.', 'Print PM.', 'Print TM.', 'Print XM.', 'Print X3M.', 'Print DDM.']
+                    'Definition MM := Eval vm_compute in fmt_mismatches lcases.', 'Definition DM := Eval vm_compute in dfmt_mismatches dcases.', 'Definition PM := Eval vm_compute in printable_mismatches lcases.', 'Definition DPM := Eval vm_compute in dprintable_mismatches dcases.', 'Print MM.', 'Print DM.', 'Print PM.', 'Print TM.', 'Print XM.', 'Print X3M.', 'Print DDM.', 'Print DPM.']
             rc, out, err = core.run_coq_text('\n'.join(text))
             if rc != 0:
                 raise RuntimeError('coqc on format cases failed: ' + err[-1500:])
@@ -245,6 +245,13 @@ def main(tier):
                 else:
                     run.report(None, 'xbytes-txt-%d' % cid, dict(payload, format='txt', output=xo['txt'].get('out'), exposure=xo['txt'].get('exposure')),
                                'list --exposure txt output differs byte-wise from the exposure-format model applied to the API result')
+            dpm = core.parse_pairs(out, 'DPM')
+            if dpm is None:
+                raise RuntimeError('no DPM in coqc output')
+            for cid, code in dpm[:4]:
+                payload, lo, do = info[cid]
+                run.report(None, 'dunprintable-%d' % cid, dict(payload, format='md', output=do['md'].get('out')),
+                           'an entry of the ConnectivityDiff is outside the domain on which the diff rendering is proved injective (non-canonical set, a non-empty absent side, equal ends, or an unusual peer name)')
             ddm = core.parse_pairs(out, 'DDM')
             if ddm is None:
                 raise RuntimeError('no DDM in coqc output')
